@@ -69,3 +69,7 @@ CORPUS += [
     M("apply-suspends-before-snapshot", "msmart/device/AC/device.py", "        cmd = SetStateCommand()\n", "        await self.refresh()\n        cmd = SetStateCommand()\n"),
     M("n-apply-logs-before-snapshot", "msmart/device/AC/device.py", "        cmd = SetStateCommand()\n", "        _LOGGER.debug(\"Applying state to device %s.\", self.id)\n        cmd = SetStateCommand()\n", "S"),
 ]
+# round 12: apply() stores none of the attributes it encodes
+CORPUS += [
+    M("apply-mutes-beep-around-properties", "msmart/device/AC/device.py", "        await self._apply_properties(props)\n", "        beep_on, self._beep_on = self._beep_on, False\n        await self._apply_properties(props)\n        self._beep_on = beep_on\n"),
+]
